@@ -1,0 +1,17 @@
+//go:build verif
+
+package version
+
+// Contracts (Gobra-style, comment-only) for the legacy version enumeration (C20). Read by /verif/govc only.
+
+//@ func (n Num) String() string
+//@   modifies nothing
+//@   ensures[C20] n == V3_0 ==> result == "3.0"
+//@   ensures[C20] n == V3_1 ==> result == "3.1"
+//@   ensures[C20] n != V3_0 && n != V3_1 ==> result == "unknown"
+
+//@ func Get(s string) Num
+//@   modifies nothing
+//@   ensures[C20] s == "3.0" ==> result == V3_0
+//@   ensures[C20] s == "3.1" ==> result == V3_1
+//@   ensures[C20] s != "3.0" && s != "3.1" ==> result == Unknown
